@@ -81,6 +81,21 @@ pub struct TyEntry {
     pub name: &'static str,
     pub expr: String,
     pub dec: Decoder,
+    /// round trip through a self-describing format (serde_json): bincode bytes -> value -> JSON -> value -> bincode bytes
+    pub json: fn(&[u8]) -> Result<bool, String>,
+}
+
+/// The derives are format-independent promises: a value written with a format that records field names and does not
+/// announce sequence lengths up front (serde_json) must read back to the same value.
+pub fn try_json_roundtrip<T: Serialize + DeserializeOwned>(bytes: &[u8]) -> Result<bool, String> {
+    let r = catch_unwind(AssertUnwindSafe(|| -> Result<bool, String> {
+        let v: T = bincode::deserialize(bytes).map_err(|e| format!("honest bytes do not decode: {}", e))?;
+        let js = serde_json::to_vec(&v).map_err(|e| format!("to JSON: {}", e))?;
+        let back: T = serde_json::from_slice(&js).map_err(|e| format!("from JSON: {}", e))?;
+        let again = bincode::serialize(&back).map_err(|e| format!("re-encode: {}", e))?;
+        Ok(again == bytes)
+    }));
+    match r { Ok(x) => x, Err(_) => Err("panic".into()) }
 }
 
 pub fn cp(g: &str, n: usize) -> String { format!("({g}_{g}_S_[{n}:S])", g = g, n = n) }
@@ -102,7 +117,7 @@ pub fn registry() -> Vec<TyEntry> {
     use zkchannels_crypto::pointcheval_sanders::{BlindedMessage, BlindedSignature, KeyPair, PublicKey, Signature};
     use zkchannels_crypto::proofs::{CommitmentProof, RangeConstraint, RangeConstraintParameters, SignatureProof, SignatureRequestProof};
     let mut v: Vec<TyEntry> = vec![];
-    macro_rules! reg { ($name:expr, $t:ty, $e:expr) => { v.push(TyEntry { name: $name, expr: $e, dec: try_decode::<$t> as Decoder }); } }
+    macro_rules! reg { ($name:expr, $t:ty, $e:expr) => { v.push(TyEntry { name: $name, expr: $e, dec: try_decode::<$t> as Decoder, json: try_json_roundtrip::<$t> }); } }
     reg!("BlindingFactor", zkchannels_crypto::BlindingFactor, "S".into());
     reg!("Commitment<G1>", Commitment<G1Projective>, "A".into());
     reg!("Commitment<G2>", Commitment<G2Projective>, "B".into());
